@@ -4,6 +4,8 @@
 
 use std::rc::Rc;
 
+use mqtt_proto::GenericPollPacketState;
+
 use crate::case::*;
 use crate::dispatch;
 use crate::fam::Codec;
@@ -52,9 +54,28 @@ pub fn gen(rng: &mut Rng, tier: Tier, idx: u64) -> Case {
         c.read_script = script;
         c.read_tail = tail;
         c.reader_style = rng.below(3) as u8;
+        trouble(rng, &mut c);
         return c;
     }
-    hostile_case(rng, tier, idx, "C03", "c03-hostile", 10)
+    let mut c = hostile_case(rng, tier, idx, "C03", "c03-hostile", 10);
+    trouble(rng, &mut c);
+    c
+}
+
+/// Transport trouble on top of the hostile bytes (one run in three): a read error of a random
+/// kind, or a close, at a small byte position, after which the caller tries again with the state
+/// it holds (a transient failure such as Interrupted / WouldBlock / TimedOut invites exactly that).
+fn trouble(rng: &mut Rng, c: &mut Case) {
+    if !rng.chance(1, 3) {
+        return;
+    }
+    let pos = if rng.chance(2, 3) { rng.urange(0, 6) } else { rng.urange(0, 40) };
+    if rng.chance(2, 3) {
+        let kid = if rng.chance(1, 2) { rng.below(3) as u8 } else { rng.below(KINDS.len() as u64) as u8 };
+        c.read_faults = vec![(pos, kid)];
+    } else {
+        c.cut = Some(pos);
+    }
 }
 
 pub fn run(c: &Case, trace: bool) -> RunOut {
@@ -77,7 +98,7 @@ fn run_g<C: Codec>(c: &Case, trace: bool) -> RunOut {
         check("B", b.kind(), format!("Packet::decode on {:?}: {m}", crate::ast::Bs(stream.to_vec())), &mut out);
     }
     // A, P under the schedule
-    let ar = run_a::<C>(&stream, &c.read_script, c.read_tail, &[], trace, &mut out);
+    let ar = run_a::<C>(&stream, &c.read_script, c.read_tail, &c.read_faults, trace, &mut out);
     if let Fe::Panic(m) | Fe::Stuck(m) = &ar.fe {
         check("A", ar.fe.kind(), format!("decode_async on {:?}: {m}", crate::ast::Bs(stream.to_vec())), &mut out);
     }
@@ -87,6 +108,49 @@ fn run_g<C: Codec>(c: &Case, trace: bool) -> RunOut {
     }
     for v in ar.sim_violations.iter().chain(pr.sim_violations.iter()).filter(|v| v.contains(crate::sim::LOST_WAKE)) {
         check("AP", "hang", v.clone(), &mut out);
+    }
+    // transport trouble, then a second attempt from the caller-held state: the decoder may fail
+    // again or succeed, but it must return
+    if !c.read_faults.is_empty() || c.cut.is_some() {
+        let first: Rc<Vec<u8>> = match c.cut {
+            Some(k) => Rc::new(stream[..k.min(stream.len())].to_vec()),
+            None => stream.clone(),
+        };
+        let core = Core::new(trace);
+        let mut st = GenericPollPacketState::<C::Header>::default();
+        let mut rd = SimReader::new(&core, first.clone(), c.read_script.clone()).with_faults(&c.read_faults);
+        rd.tail = c.read_tail;
+        let cap = poll_cap(stream.len(), &c.read_script);
+        let r1 = fe_poll::<C>(&core, &mut st, &mut rd, &c.cancel, cap, None);
+        out.evals += 1;
+        if let Fe::Panic(m) | Fe::Stuck(m) = &r1 {
+            check("P", r1.kind(), format!("PollPacket on {:?} with read faults {:?} / close at {:?}: {m}", crate::ast::Bs(stream.to_vec()), c.read_faults, c.cut), &mut out);
+        }
+        let transport_failure = matches!(&r1, Fe::Err { e, .. } if C::norm(e).io_kind.is_some());
+        if transport_failure {
+            out.probe("retry_after_transport_failure");
+            let rest = Rc::new(stream[rd.pos.min(stream.len())..].to_vec());
+            let mut rd2 = SimReader::new(&core, rest, vec![]);
+            let r2 = fe_poll::<C>(&core, &mut st, &mut rd2, &[], cap, None);
+            out.evals += 1;
+            if let Fe::Panic(m) | Fe::Stuck(m) = &r2 {
+                check(
+                    "P-retry",
+                    r2.kind(),
+                    format!(
+                        "PollPacket polled again from the caller-held state after the transport failed ({}) at byte {} of {:?}: {m}",
+                        fe_brief::<C>(&r1),
+                        rd.pos,
+                        crate::ast::Bs(stream.to_vec())
+                    ),
+                    &mut out,
+                );
+            }
+            if matches!(r2, Fe::Ok { .. }) {
+                out.probe("retry_completed_packet");
+            }
+        }
+        out.absorb_core(&core, trace);
     }
     // bare header entry points
     match guarded(|| C::header_decode(&stream)) {
